@@ -579,3 +579,156 @@ Proof.
          (TMap (TLeaf (LInt 32 true)) (TLeaf (LInt 32 true))), (PList []).
   vm_compute. reflexivity.
 Qed.
+
+(* ---------- nested types: induction on the type structure ---------- *)
+
+Fixpoint is_fields (fs : ctype) : bool :=
+  match fs with FNil => true | FCons _ _ r => is_fields r | _ => false end.
+
+(* well-formed C value of a type (what C++ itself guarantees: ranges, distinct set elements and
+   map keys, array extents); unions are excluded *)
+Fixpoint wf (sc : scfg) (t : ctype) (c : cval) {struct t} : Prop :=
+  match t with
+  | TLeaf (LInt w sg) => exists z, c = CInt z /\ in_range w sg z
+  | TLeaf LDouble => exists d, c = CDouble d
+  | TLeaf LString => exists b, c = CBytes b
+  | TVector e | TCppList e => exists l, c = CSeq l /\ Forall (wf sc e) l
+  | TArray n e => exists l, c = CSeq l /\ length l = n /\ Forall (wf sc e) l
+  | TSet e | TUSet e => rigid e = true /\ exists l, c = CSet l /\ NoDup l /\ Forall (wf sc e) l
+  | TMap k e | TUMap k e =>
+      rigid k = true /\ exists kv, c = CMap kv /\ NoDup (map fst kv) /\
+        Forall (wf sc k) (map fst kv) /\ Forall (wf sc e) (map snd kv)
+  | TPair a b => exists x y, c = CSeq [x; y] /\ wf sc a x /\ wf sc b y
+  | TCTuple fs => is_fields fs = true /\ wf sc fs c
+  | TStruct fs => is_fields fs = true /\ NoDup (field_names fs) /\ wf sc fs c
+  | TUnion _ => False
+  | FNil => c = CSeq []
+  | FCons _ ft r => exists x xs, c = CSeq (x :: xs) /\ wf sc ft x /\ wf sc r (CSeq xs)
+  end.
+
+Lemma dict_get_app n a b :
+  dict_get n (a ++ b) = match dict_get n a with Some x => Some x | None => dict_get n b end.
+Proof.
+  induction a as [|[k v] a IH]; cbn; [reflexivity|]. destruct (key_is n k); [reflexivity|exact IH].
+Qed.
+
+Lemma list_eqb_N_refl a : list_eqb N.eqb a a = true.
+Proof. induction a as [|x a IH]; cbn; [reflexivity|]. rewrite N.eqb_refl. exact IH. Qed.
+
+Lemma lookup_combine_gen names : forall vals d0,
+  NoDup names -> length vals = length names ->
+  (forall n, In n names -> dict_get n d0 = None) ->
+  mapM (fun n => getitem_str n (PDict (d0 ++ combine (map PStr names) vals))) names = Ok vals.
+Proof.
+  induction names as [|n r IH]; intros vals d0 Hnd Hlen Hd0.
+  - destruct vals; [reflexivity|discriminate].
+  - destruct vals as [|v vr]; [discriminate|]. cbn [mapM map combine].
+    assert (E : getitem_str n (PDict (d0 ++ (PStr n, v) :: combine (map PStr r) vr)) = Ok v).
+    { cbn [getitem_str]. rewrite dict_get_app, (Hd0 n (or_introl eq_refl)). cbn [dict_get key_is].
+      rewrite list_eqb_N_refl. reflexivity. }
+    rewrite E.
+    replace (d0 ++ (PStr n, v) :: combine (map PStr r) vr)
+      with ((d0 ++ [(PStr n, v)]) ++ combine (map PStr r) vr) by (rewrite <- app_assoc; reflexivity).
+    rewrite IH; [reflexivity| | |].
+    + inversion Hnd; assumption.
+    + cbn in Hlen. injection Hlen as Hlen. exact Hlen.
+    + intros n' Hin. rewrite dict_get_app, (Hd0 n' (or_intror Hin)). cbn [dict_get key_is].
+      destruct (list_eqb N.eqb n n') eqn:E2; [|reflexivity].
+      apply list_eqb_N_sound in E2. subst n'. inversion Hnd; contradiction.
+Qed.
+
+Lemma lookup_combine names vals :
+  NoDup names -> length vals = length names ->
+  lookup_all names (PDict (combine (map PStr names) vals)) = Ok vals.
+Proof.
+  intros Hnd Hlen. unfold lookup_all.
+  apply (lookup_combine_gen names vals [] Hnd Hlen). intros n _. reflexivity.
+Qed.
+
+Lemma nfields_names fs : nfields fs = length (field_names fs).
+Proof. induction fs; cbn; auto. Qed.
+
+Lemma fields_shape sc fs : forall c pv,
+  is_fields fs = true -> to_py sc fs c = Ok pv ->
+  exists vals, pv = PTuple vals /\ length vals = nfields fs.
+Proof.
+  induction fs; intros c pv Hf H; cbn [is_fields] in Hf; try discriminate.
+  - cbn [to_py] in H. destruct c as [| | |l| | |]; try discriminate. destruct l; [|discriminate].
+    inversion H. exists []. auto.
+  - cbn [to_py] in H. destruct c as [| | |l| | |]; try discriminate. destruct l as [|x xs]; [discriminate|].
+    destruct (to_py sc fs1 x) as [p|]; [|discriminate].
+    destruct (to_py sc fs2 (CSeq xs)) as [pr|] eqn:Hr; [|discriminate].
+    destruct (IHfs2 _ _ Hf Hr) as (vals & -> & Hl). cbn in H. inversion H.
+    exists (p :: vals). cbn. auto.
+Qed.
+
+(* C -> Python -> C is the identity on every well-formed value of every (nested) type *)
+Theorem to_from sc :
+  (sc_type sc = SUnicode -> codec_law (sc_enc sc)) ->
+  forall t c v, wf sc t c -> to_py sc t c = Ok v -> from_py sc t v = Ok c.
+Proof.
+  intros Hc. induction t; intros c v Hwf Hto.
+  - (* leaf *) destruct l as [w sg| |].
+    + destruct Hwf as (z & -> & Hr). cbn in Hto. inversion Hto; subst.
+      cbn [from_py leaf_from_py int_from_py]. apply in_rangeb_spec in Hr. rewrite Hr. reflexivity.
+    + destruct Hwf as (d & ->). cbn in Hto. inversion Hto; subst. reflexivity.
+    + destruct Hwf as (b & ->). cbn [to_py leaf_to_py] in Hto. cbn [from_py leaf_from_py].
+      eapply string_to_from; eauto.
+  - (* vector *) destruct Hwf as (l & -> & HF). cbn [to_py] in Hto.
+    destruct (mapM (to_py sc t) l) as [vs|] eqn:Hm; cbn in Hto; inversion Hto; subst.
+    cbn [from_py]. rewrite (seq_roundtrip (from_py sc t) (to_py sc t) l vs); [reflexivity| |exact Hm].
+    intros x v' Hin Hx. apply IHt; [|exact Hx]. rewrite Forall_forall in HF. apply HF; exact Hin.
+  - (* std::list *) destruct Hwf as (l & -> & HF). cbn [to_py] in Hto.
+    destruct (mapM (to_py sc t) l) as [vs|] eqn:Hm; cbn in Hto; inversion Hto; subst.
+    cbn [from_py]. rewrite (seq_roundtrip (from_py sc t) (to_py sc t) l vs); [reflexivity| |exact Hm].
+    intros x v' Hin Hx. apply IHt; [|exact Hx]. rewrite Forall_forall in HF. apply HF; exact Hin.
+  - (* set *) destruct Hwf as (Hr & l & -> & Hnd & HF). cbn [to_py] in Hto.
+    destruct (pyset_loop (to_py sc t) l []) as [vs|] eqn:Hm; cbn in Hto; inversion Hto; subst.
+    cbn [from_py]. rewrite Hr.
+    rewrite (set_roundtrip (from_py sc t) (to_py sc t) ceqb ceqb_sound l vs Hnd); [reflexivity| |exact Hm].
+    intros x v' Hin Hx. apply IHt; [|exact Hx]. rewrite Forall_forall in HF. apply HF; exact Hin.
+  - (* unordered_set *) destruct Hwf as (Hr & l & -> & Hnd & HF). cbn [to_py] in Hto.
+    destruct (pyset_loop (to_py sc t) l []) as [vs|] eqn:Hm; cbn in Hto; inversion Hto; subst.
+    cbn [from_py]. rewrite Hr.
+    rewrite (set_roundtrip (from_py sc t) (to_py sc t) ceqb ceqb_sound l vs Hnd); [reflexivity| |exact Hm].
+    intros x v' Hin Hx. apply IHt; [|exact Hx]. rewrite Forall_forall in HF. apply HF; exact Hin.
+  - (* map *) destruct Hwf as (Hr & kv & -> & Hnd & HK & HV). cbn [to_py] in Hto.
+    destruct (pydict_loop (to_py sc t1) (to_py sc t2) kv []) as [d|] eqn:Hm; cbn in Hto; inversion Hto; subst.
+    cbn [from_py]. rewrite Hr.
+    rewrite (map_roundtrip (from_py sc t1) (to_py sc t1) (from_py sc t2) (to_py sc t2) ceqb ceqb_sound kv d Hnd);
+      [reflexivity| | |exact Hm].
+    + intros x v' Hin Hx. apply IHt1; [|exact Hx]. rewrite Forall_forall in HK. apply HK; exact Hin.
+    + intros x v' Hin Hx. apply IHt2; [|exact Hx]. rewrite Forall_forall in HV. apply HV; exact Hin.
+  - (* unordered_map *) destruct Hwf as (Hr & kv & -> & Hnd & HK & HV). cbn [to_py] in Hto.
+    destruct (pydict_loop (to_py sc t1) (to_py sc t2) kv []) as [d|] eqn:Hm; cbn in Hto; inversion Hto; subst.
+    cbn [from_py]. rewrite Hr.
+    rewrite (map_roundtrip (from_py sc t1) (to_py sc t1) (from_py sc t2) (to_py sc t2) ceqb ceqb_sound kv d Hnd);
+      [reflexivity| | |exact Hm].
+    + intros x v' Hin Hx. apply IHt1; [|exact Hx]. rewrite Forall_forall in HK. apply HK; exact Hin.
+    + intros x v' Hin Hx. apply IHt2; [|exact Hx]. rewrite Forall_forall in HV. apply HV; exact Hin.
+  - (* pair *) destruct Hwf as (x & y & -> & Hx & Hy). cbn [to_py] in Hto.
+    destruct (to_py sc t1 x) as [px|] eqn:Ha; cbn [bind] in Hto; [|discriminate].
+    destruct (to_py sc t2 y) as [py|] eqn:Hb; cbn [bind] in Hto; [|discriminate].
+    inversion Hto; subst. cbn [from_py].
+    rewrite (pair_roundtrip (from_py sc t1) (from_py sc t2) x y px py (IHt1 _ _ Hx Ha) (IHt2 _ _ Hy Hb)).
+    reflexivity.
+  - (* C array *) destruct Hwf as (l & -> & Hn & HF). cbn [to_py] in Hto.
+    destruct (mapM (to_py sc t) l) as [vs|] eqn:Hm; cbn in Hto; inversion Hto; subst.
+    cbn [from_py]. rewrite (arr_roundtrip (from_py sc t) (to_py sc t) (length l) l vs eq_refl); [reflexivity| |exact Hm].
+    intros x v' Hin Hx. apply IHt; [|exact Hx]. rewrite Forall_forall in HF. apply HF; exact Hin.
+  - (* struct *) destruct Hwf as (Hf & Hnd & Hw). cbn [to_py] in Hto.
+    destruct (to_py sc t c) as [pv|] eqn:Hfs; [|discriminate].
+    destruct (fields_shape sc t c pv Hf Hfs) as (vals & -> & Hl). cbn in Hto. inversion Hto; subst.
+    cbn [from_py mapping_check]. rewrite nfields_names in Hl.
+    rewrite (lookup_combine _ _ Hnd Hl). cbn [bind]. apply IHt; assumption.
+  - (* union *) destruct Hwf.
+  - (* ctuple *) destruct Hwf as (Hf & Hw). cbn [to_py] in Hto.
+    destruct (fields_shape sc t c v Hf Hto) as (vals & -> & Hl).
+    cbn [from_py seq_items]. rewrite Hl, Nat.eqb_refl. apply IHt; assumption.
+  - (* FNil *) cbn in Hwf. subst c. cbn in Hto. inversion Hto. reflexivity.
+  - (* FCons *) destruct Hwf as (x & xs & -> & Hx & Hr). cbn [to_py] in Hto.
+    destruct (to_py sc t1 x) as [p|] eqn:Hp; [|discriminate].
+    destruct (to_py sc t2 (CSeq xs)) as [pr|] eqn:Hpr; [|discriminate].
+    destruct pr; try discriminate. cbn in Hto. inversion Hto; subst.
+    cbn [from_py]. rewrite (IHt1 _ _ Hx Hp). rewrite (IHt2 _ _ Hr Hpr). reflexivity.
+Qed.
